@@ -378,7 +378,10 @@ int xcm_send(struct xcm_socket *__restrict conn_s,
 	else
 	    rc = msg_bsend(conn_s, buf, len);
 
-	if (rc >= 0 && socket_finish(conn_s) < 0)
+	/* Once the transport has accepted the data, an interrupted wait
+	   for it to be flushed must not be reported as a failed send
+	   (the application would send it again) */
+	if (rc >= 0 && socket_finish(conn_s) < 0 && errno != EINTR)
 	    return -1;
 
 	return rc;
